@@ -20,6 +20,11 @@ class KdfCost(BaseException):
     """raised by the KDF guard: the library was about to run a password KDF with a cost above the cap"""
 
 
+class CpuTime(BaseException):
+    """raised by the SIGVTALRM handler: the call has used more than CPU_LIMIT_S seconds of PROCESSOR time (virtual time of this
+    process, which a loaded machine does not inflate)"""
+
+
 class WallClock(BaseException):
     """raised by the SIGALRM handler (never a verdict, only `inconclusive`)"""
 
@@ -141,12 +146,20 @@ class Harness(object):
         self._sampled = {}
         self.wall_s = 240 if ctx.tier == "quick" else 600
         signal.signal(signal.SIGALRM, self._alarm)
+        # native code the step counter cannot see into (the regular-expression engine, most of all) is bounded in virtual
+        # time: valid inputs of this size take milliseconds
+        self.cpu_s = 10
+        self.cpu_aborts = 0         # after three aborted calls the run stops offering inputs: the verdict is settled
+        signal.signal(signal.SIGVTALRM, self._vtalarm)
         self.probes = None          # [(name, fn, first output)]: deterministic ENCODER calls, see run_probes()
         self._offers = 0
 
     # ---- wall clock (inconclusive only)
     def _alarm(self, signum, frame):
         raise WallClock()
+
+    def _vtalarm(self, signum, frame):
+        raise CpuTime()
 
     # ---- buffered violations: the smallest witnesses are kept
     def violation(self, key, what, witness, size):
@@ -224,9 +237,10 @@ class Harness(object):
 
     # ---- one guarded call
     def guarded(self, fn, budget):
-        """-> (kind, value, steps); kind in ok | exc | budget | kdf | wall"""
+        """-> (kind, value, steps); kind in ok | exc | budget | kdf | cpu | wall"""
         st = self.steps
         signal.setitimer(signal.ITIMER_REAL, self.wall_s, 2.0)
+        signal.setitimer(signal.ITIMER_VIRTUAL, self.cpu_s, 1.0)
         kind, val = "ok", None
         try:
             st.start(budget)
@@ -238,13 +252,16 @@ class Harness(object):
             kind = "budget"
         except KdfCost:
             kind = "kdf"
+        except CpuTime:
+            kind = "cpu"
         except WallClock:
             kind = "wall"
         except BaseException as e:      # noqa - the outcome of the decoder
             kind, val = "exc", e
         finally:
+            signal.setitimer(signal.ITIMER_VIRTUAL, 0)
             signal.setitimer(signal.ITIMER_REAL, 0)
-        if st.exceeded and kind != "wall":
+        if st.exceeded and kind not in ("wall", "cpu"):
             kind, val = "budget", None
         return kind, val, n
 
@@ -282,7 +299,12 @@ class Harness(object):
             b = self.CAL_BUDGET
         if self.probes is None:
             self._build_probes()
+        if self.cpu_aborts >= 3:
+            ctx.count("offers_skipped_after_processor_time_aborts")
+            return "skipped", None, 0
         kind, val, steps = self.guarded(lambda: dec.fn(data, **allkw), b)
+        if kind == "cpu":
+            self.cpu_aborts += 1
         ctx.count(name + "|inputs")
         self._offers += 1
         if self._offers % 150 == 0 or (kind == "ok" and not icls.startswith("valid")):
@@ -372,9 +394,12 @@ class Harness(object):
                 ctx.count(name + "|calibration_inputs")
         elif dec.pw:
             ctx.count(name + "|skipped_with_passphrase")
-            if kind in ("budget", "kdf"):
+            if kind in ("budget", "kdf", "cpu"):
                 ctx.count(name + "|skipped_with_passphrase_aborted")
         else:
+            self.check(kind != "cpu", "time:%s:processor-time-unbounded-without-password" % dec.base,
+                       "%s without a passphrase used more than %d s of PROCESSOR time on an input of %d bytes (valid inputs of this size "
+                       "take milliseconds) - aborted by the virtual-time alarm" % (dec.base, self.cpu_s, size), lambda: W(aborted=kind), size)
             if self.check(kind not in ("budget", "kdf"), "time:%s:unbounded-without-password" % dec.base,
                           "%s without a passphrase ran past %d logical steps (bound 20x(max valid + max valid/byte x len)) - "
                           "aborted by the step counter%s" % (dec.base, b, " / KDF cost guard" if kind == "kdf" else ""),
